@@ -1,17 +1,17 @@
 #!/bin/bash
 # usage: confirm_benign.sh <area> <i>   (worktree /tmp/benign/<area>, original copy /tmp/benign_orig_<area>)
 # Confirms a behaviour-preserving patch: applies, suite passes, the agent's differential check reports no difference.
-A=$1; I=$2; WT=/tmp/benign/$A; SD=$WT/SEED/$I; OUT=/verif/benign/$A-$I
+EQARGS=${EQARGS-1500}; A=$1; I=$2; BASE=${3:-/tmp/benign}; TAG=${4:-}; WT=$BASE/$A; SD=$WT/SEED/$I; OUT=/verif/benign/$A$TAG-$I
 cd $WT || exit 9
 git checkout -q -- . ; git apply --check $SD/patch.diff || { echo "REJECTED $A-$I patch-does-not-apply"; exit 1; }
 git apply $SD/patch.diff
 SUITE=$(PYTHONPATH=$WT timeout 900 /venv/bin/python -m pytest -q -p no:cacheprovider -n 6 tests/core --ignore=tests/core/test_iter.py --deselect tests/core/test_hexary_trie.py::test_fixtures_exist 2>&1 | tail -1)
-EQ=$(cd $WT && timeout 1200 /venv/bin/python SEED/equiv.py 1500 2>&1 | tail -3 | tr '\n' ' ')
+EQ=$(cd $WT && timeout 1800 /venv/bin/python SEED/equiv.py $EQARGS 2>&1 | tail -3 | tr '\n' ' ')
 EQRC=$?
 git checkout -q -- .
-echo "RESULT $A-$I suite=[$SUITE] equiv=[$EQ]"
+echo "RESULT $A$TAG-$I suite=[$SUITE] equiv=[$EQ]"
 case "$SUITE" in *"215 passed"*) S_OK=1;; *) S_OK=0;; esac
-case "$EQ" in *"DIFFERENCES: 0"*|*"differences: 0"*|*"Differences: 0"*|*"differences=0"*) E_OK=1;; *) E_OK=0;; esac
+case "$EQ" in *"DIFFERENCES: 0"*|*"differences: 0"*|*"Differences: 0"*|*"differences=0"*|*" 0 differences"*) E_OK=1;; *) E_OK=0;; esac
 if [ $S_OK = 1 ] && [ $E_OK = 1 ]; then
   mkdir -p $OUT; cp $SD/patch.diff $OUT/; [ -f $SD/notes.md ] && cp $SD/notes.md $OUT/
   cat > $OUT/confirm.txt <<EOT
@@ -19,7 +19,7 @@ confirmed in scratch worktree $WT (commit $(git rev-parse --short HEAD)):
 suite with the patch: $SUITE
 differential check against the original package (SEED/equiv.py 1500): $EQ
 EOT
-  echo "CONFIRMED $A-$I"
+  echo "CONFIRMED $A$TAG-$I"
 else
-  echo "REJECTED $A-$I"
+  echo "REJECTED $A$TAG-$I"
 fi
